@@ -13,7 +13,7 @@ EXTENDS Integers, Sequences, FiniteSets
 GcbCR == {13}
 GcbLF == {10}
 GcbControl == {1, 9, 11, 12, 8232}                 \* U+0001, TAB, VT, FF, LINE SEPARATOR
-GcbExtend == {769, 776, 65039, 127995, 2364, 2381}   \* U+0301 U+0308 U+FE0F U+1F3FB U+093C U+094D
+GcbExtend == {769, 776, 837, 65039, 127995, 2364, 2381}   \* U+0301 U+0308 U+0345 U+FE0F U+1F3FB U+093C U+094D
 GcbZWJ == {8205}
 GcbSpacingMark == {2307, 3635}                     \* U+0903, U+0E33
 GcbPrepend == {1536, 3406}                         \* U+0600, U+0D4E
